@@ -460,12 +460,16 @@ func (w *World) CheckNodeUsage(node string) []string {
 // returned release function is called (idempotent), the way long-running concurrent requests
 // (streams, deployments) do: from then on the non-blocking pool refuses every further task.
 // Returns the number of workers occupied.
-func (w *World) SaturatePool() (occupied int, release func()) {
+func (w *World) SaturatePool() (occupied int, release func()) { return w.OccupyPool(0) }
+
+// OccupyPool is SaturatePool that leaves leaveFree workers available: the pool then accepts
+// exactly that many concurrently running tasks and refuses the next one.
+func (w *World) OccupyPool(leaveFree int) (occupied int, release func()) {
 	ch := make(chan struct{})
 	var once sync.Once
 	release = func() { once.Do(func() { close(ch) }) }
 	deadline := time.Now().Add(2 * time.Second)
-	for occupied < w.Cfg.MaxConcurrency && time.Now().Before(deadline) {
+	for occupied < w.Cfg.MaxConcurrency-leaveFree && time.Now().Before(deadline) {
 		if err := w.Cal.VerifPoolInvoke(func() { <-ch }); err != nil {
 			time.Sleep(2 * time.Millisecond) // an earlier task is still winding down: try again
 			continue
